@@ -8,6 +8,8 @@
 //      variant 3: FCStack<int> over std::stack, elimination off      (lincheck stack)    4: elimination on
 //      prefill k: the main thread pushes k values 900, 901, ... before the workers start (thread 99 in the history)
 //   thread operations: [1; v] push / enqueue v      [2] pop / dequeue
+//                      [3; v] push( T&& ) / enqueue( T&& )  (request words op_push_move / op_enq_move; FCQueue::push( T&& )
+//                             forwards an lvalue to enqueue( T const& ), so enqueue( T&& ) is called directly)
 // Output: as harness/C10/main.cpp (client events only, then monitor ops / combs / collided).
 #include <cds/container/fcpriority_queue.h>
 #include <cds/container/fcqueue.h>
@@ -48,6 +50,9 @@ template <bool Elim> constexpr const bool s_traits<Elim>::enable_elimination;
 
 static std::atomic<int> g_ended;
 
+template <class Cont> static void push_move( Cont& q, int v ) { q.push( std::move( v )); }
+template <bool E> static void push_move( cc::FCQueue<int, std::queue<int>, q_traits<E>>& q, int v ) { q.enqueue( std::move( v )); }
+
 template <class Cont>
 static void run_case( vcase::Case const& c, char const* push_name, char const* pop_name )
 {
@@ -69,10 +74,10 @@ static void run_case( vcase::Case const& c, char const* push_name, char const* p
         vcase::run_workers( c, [&]( int t ) {
             char b2[96];
             for ( auto const& op : c.threads[t] ) {
-                if ( op[0] == 1 ) {
+                if ( op[0] == 1 || op[0] == 3 ) {
                     int v = (int) op[1];
                     std::snprintf( b2, sizeof( b2 ), "inv %s %d", push_name, v ); vs::emit( b2 );
-                    q.push( v );
+                    if ( op[0] == 1 ) q.push( v ); else push_move( q, v );
                     vs::emit( "res true" );
                 }
                 else if ( op[0] == 2 ) {
